@@ -581,6 +581,182 @@ Definition cham_token : token cham := mktoken cham
      | UOther => Some (c, [])
      end).
 
+(** hand-assembled, NOT registered: a token without a ledger: transfer / transferFrom emit
+    Transfer(from, to, x) and answer true, nothing moves; balanceOf = totalSupply = 0;
+    every other selector (burn included) succeeds silently *)
+Definition fakexfer_token : token ledger := mktoken ledger
+  (fun _ => true) (fun _ _ => Some 0) (fun _ => Some 0)
+  (fun t _ _ => Some (t, [])) (fun t _ _ => Some (t, [])) (fun t _ => Some (t, []))
+  (fun t from to x => Some (t, Some true, [tlog from to x]))
+  (fun t _ _ => Some (t, [])).
+
+(** * SEVERAL token contracts in one transaction
+
+    One receipt can carry the logs of any number of token contracts: registered and
+    enabled pairs of either origin, a registered but disabled pair, contracts that are
+    not registered at all (honest ones, or ones that emit whatever Transfer events they
+    like), in any order, the same contract at non-adjacent positions.  The hook
+    (evm_hooks.go PostTxProcessing) looks every log's EMITTING CONTRACT up in the pair
+    registry (GetERC20Map(log.Address), then GetTokenPair), skips the log when there is
+    no such pair, and otherwise converts for THAT pair only.
+
+    [world]: per token contract (its id) the pair state [st ledger]: registry entry
+    ([reg] = false: the contract is not a registered pair, [en] = false: disabled),
+    the bank side of the paired denomination and the token's own state. *)
+Record clog := mkclog { lc : N; ll : log }.   (* a log and the contract that emitted it *)
+Notation world := (gmap N (st ledger)) (only parsing).
+
+(** GetERC20Map + GetTokenPair: the pair registered for a contract address *)
+Definition lookup_pair (w : world) (c : N) : option (st ledger) :=
+  match w !! c with
+  | Some s => if reg s then Some s else None
+  | None => None
+  end.
+
+(** one call of the script contract: token [mc_c].transfer(to, x) ([mc_from] = SCRIPT)
+    or token.transferFrom(from, to, x) with an infinite allowance *)
+Record mcall := mkmcall { mc_c : N; mc_from : N; mc_to : N; mc_x : Z; mc_catch : bool }.
+
+(** the logs of contract [p] only, in order *)
+Fixpoint proj (p : N) (logs : list clog) : list log :=
+  match logs with
+  | [] => []
+  | l :: r => if N.eqb (lc l) p then ll l :: proj p r else proj p r
+  end.
+Fixpoint keep (f : clog -> bool) (logs : list clog) : list clog :=
+  match logs with
+  | [] => []
+  | l :: r => if f l then l :: keep f r else keep f r
+  end.
+
+Section Multi.
+  Variable tkof : N -> token ledger.   (* the behaviour of the token contract with a given id *)
+  Variable cf : cfg.
+
+  (** PostTxProcessing, one log: the pair is the one registered for the log's contract *)
+  Definition mhook_log (w : world) (l : clog) : option world :=
+    match lookup_pair w (lc l) with
+    | None => Some w
+    | Some s => match hook_log (tkof (lc l)) cf s (ll l) with
+                | None => None
+                | Some s' => Some (<[lc l := s']> w)
+                end
+    end.
+
+  Definition mhook_logs (w : world) (logs : list clog) : option world :=
+    fold_left (fun acc l => match acc with None => None | Some w => mhook_log w l end) logs (Some w).
+
+  (** [on] = Params.EnableErc20 && Params.EnableEVMHook *)
+  Definition mhook (on : bool) (w : world) (logs : list clog) : option world :=
+    if negb on then Some w else mhook_logs w logs.
+
+  (** the calls of the script contract, in order, each on its own token contract;
+      the receipt's logs are the logs of the successful calls in call order, each
+      carrying the address of the contract that emitted it *)
+  Fixpoint mcalls (w : world) (cs : list mcall) : option (world * list clog) :=
+    match cs with
+    | [] => Some (w, [])
+    | c :: r =>
+      match w !! mc_c c with
+      | None => mcalls w r        (* no code at that address: the CALL succeeds and does nothing *)
+      | Some s =>
+        match call_transfer (tkof (mc_c c)) (tok s) (mc_from c) (mc_to c) (mc_x c) with
+        | None => if mc_catch c then mcalls w r else None
+        | Some (t1, _, lg) =>
+          match mcalls (<[mc_c c := set_tok s t1]> w) r with
+          | None => None
+          | Some (w2, lg2) => Some (w2, map (mkclog (mc_c c)) lg ++ lg2)
+          end
+        end
+      end
+    end.
+
+  (** one signed Ethereum transaction to the script contract through ApplyTransaction *)
+  Definition multi_tx (on : bool) (w : world) (signer : N) (cs : list mcall) : world * N * list clog :=
+    if negb (has_key signer) then (w, EUnauth, []) else
+    match mcalls w cs with
+    | None => (w, EVMFail, [])
+    | Some (w1, logs) =>
+      match mhook on w1 logs with
+      | None => (w, EOther, [])
+      | Some w2 => (w2, OK, logs)
+      end
+    end.
+
+  (** NOT the code of /repo: a hook that remembers the pair it resolved for the
+      previous log's contract ([last]: that contract, [cached]: the contract whose
+      pair was found) and, on a registry miss, just skips the log WITHOUT forgetting
+      the remembered pair.  The conversion then runs for the remembered pair [p]
+      while the burn goes to the contract [c] that emitted the log. *)
+  Definition memo_convert (w : world) (p c : N) (l : log) : option world :=
+    match w !! p, w !! c with
+    | Some sp, Some sc =>
+      if negb (N.eqb (lto l) MODULE) then Some w else
+      if negb (en sp) then Some w else
+      if own_mod sp then
+        match call_burn (tkof c) (tok sc) (lamt l) with
+        | None => Some w
+        | Some (t1, _) =>
+          let w1 := <[c := set_tok sc t1]> w in
+          match w1 !! p with
+          | None => Some w1
+          | Some sp1 =>
+            if blocked (lfrom l) then Some w1 else
+            match bank_send (cbal sp1) MODULE (lfrom l) (lamt l) with
+            | None => Some w1
+            | Some cb => Some (<[p := set_bank sp1 cb (supply sp1)]> w1)
+            end
+          end
+        end
+      else if negb (hook_ext cf) then Some w else
+        if MAXU <? supply sp + lamt l then None else
+        let cb := zset (cbal sp) MODULE (zget (cbal sp) MODULE + lamt l) in
+        let s1 := set_bank sp cb (supply sp + lamt l) in
+        if blocked (lfrom l) then Some (<[p := s1]> w) else
+        match bank_send cb MODULE (lfrom l) (lamt l) with
+        | None => Some (<[p := s1]> w)
+        | Some cb' => Some (<[p := set_bank s1 cb' (supply s1)]> w)
+        end
+    | _, _ => Some w
+    end.
+
+  Fixpoint memo_hook_logs (w : world) (last cached : option N) (logs : list clog) : option world :=
+    match logs with
+    | [] => Some w
+    | l :: r =>
+      match lk (ll l) with
+      | LTransfer =>
+        if lamt (ll l) <=? 0 then memo_hook_logs w last cached r else
+        let c := lc l in
+        if bool_decide (last = Some c) then
+          (* same contract as the previous log: no lookup *)
+          match cached with
+          | None => memo_hook_logs w last cached r
+          | Some p => match memo_convert w p c (ll l) with
+                      | None => None
+                      | Some w1 => memo_hook_logs w1 last cached r
+                      end
+          end
+        else
+          match lookup_pair w c with
+          | None => memo_hook_logs w (Some c) cached r    (* miss: [cached] is NOT reset *)
+          | Some _ => match memo_convert w c c (ll l) with
+                      | None => None
+                      | Some w1 => memo_hook_logs w1 (Some c) (Some c) r
+                      end
+          end
+      | _ => memo_hook_logs w last cached r
+      end
+    end.
+End Multi.
+
+(** the contract ids the harness uses: 0 the pair under test (when its token is an
+    honest ledger), 1 / 2 registered enabled coin-origin / token-origin pairs, 3 a
+    registered disabled coin-origin pair, 4 an unregistered honest ERC20, 5 the
+    unregistered log-only token *)
+Definition FAKE : N := 5.
+Definition tk_of (c : N) : token ledger := if N.eqb c FAKE then fakexfer_token else honest_token.
+
 (** * observation, as the harness prints it *)
 Record obs := mkobs {
   o_res : N; o_reg : bool; o_en : bool; o_on : bool; o_hook : bool;
@@ -609,8 +785,7 @@ Definition init_supply : Z := 10 ^ 24.   (* constructor mint of the two maliciou
 
 (** kinds: 0 coin-origin pair (the module's own contract); 1 honest external
     token; 2 siphon; 3 approve; 4 const; 5 fakelog; 6 chameleon *)
-Definition check_case (c : N * list (op * obs)) : option nat :=
-  let '(kind, h) := c in
+Definition check_hist (kind : N) (h : list (op * obs)) : option nat :=
   match kind with
   | 0%N => check_from honest_token 0 (init true {[FAR := 1]} 1 (mkledger ∅ 0 MODULE)) h
   | 1%N => check_from honest_token 0 (init false ∅ 0 (mkledger ∅ 0 DEPLOYER)) h
@@ -624,7 +799,56 @@ Definition check_case (c : N * list (op * obs)) : option nat :=
   | _ => Some 0%nat
   end.
 
-Fixpoint mismatches_from (i : nat) (cs : list (N * list (op * obs))) : list nat :=
+(** ** one script transaction against the multi-contract model: the observed state
+    of every token contract before, the calls, the observed result, the receipt's
+    logs (with what the real registry said about the emitting contract) and the
+    observed state of every contract afterwards *)
+Global Instance lkind_eq_dec : EqDecision lkind.
+Proof. solve_decision. Defined.
+Global Instance log_eq_dec : EqDecision log.
+Proof. solve_decision. Defined.
+Global Instance clog_eq_dec : EqDecision clog.
+Proof. solve_decision. Defined.
+
+Record mcase := mkmcase {
+  m_on : bool;
+  m_pre : list (N * bool * obs);     (* contract id, coin-origin?, observation *)
+  m_signer : N;
+  m_calls : list mcall;
+  m_res : N;
+  m_logs : list (clog * bool);       (* log, was its contract a registered pair? *)
+  m_post : list (N * bool * obs)
+}.
+
+Definition bal_of_list (xs : list Z) : gmap N Z := list_to_map (zip actors xs).
+Definition st_of_obs (own : bool) (o : obs) : st ledger :=
+  mkst (o_reg o) own (o_en o) (o_on o) (o_hook o) (bal_of_list (o_coin o)) (o_supply o)
+       (mkledger (bal_of_list (map (default 0) (o_tok o))) (default 0 (o_total o)) (if own then MODULE else DEPLOYER)).
+Definition world_of (l : list (N * bool * obs)) : world :=
+  list_to_map (map (fun e => (fst (fst e), st_of_obs (snd (fst e)) (snd e))) l).
+Definition wobs (w : world) (l : list (N * bool * obs)) : list (option obs) :=
+  map (fun e => match w !! fst (fst e) with
+                | Some s => Some (observe (tk_of (fst (fst e))) s 0)
+                | None => None
+                end) l.
+
+Definition mcheck (m : mcase) : bool :=
+  let w := world_of (m_pre m) in
+  let '(w', r, logs) := multi_tx tk_of impl (m_on m) w (m_signer m) (m_calls m) in
+  bool_decide (r = m_res m) &&
+  bool_decide (wobs w (m_pre m) = map (fun e => Some (snd e)) (m_pre m)) &&   (* the model state represents the observation *)
+  bool_decide (wobs w' (m_post m) = map (fun e => Some (snd e)) (m_post m)) &&
+  bool_decide (logs = map fst (m_logs m)) &&
+  forallb (fun e => Bool.eqb (snd e) (match lookup_pair w (lc (fst e)) with Some _ => true | None => false end)) (m_logs m).
+
+Definition check_case (c : N * list (op * obs) * list mcase) : option nat :=
+  let '(kind, h, ms) := c in
+  match check_hist kind h with
+  | Some i => Some i
+  | None => if forallb mcheck ms then None else Some (length h)
+  end.
+
+Fixpoint mismatches_from (i : nat) (cs : list (N * list (op * obs) * list mcase)) : list nat :=
   match cs with
   | [] => []
   | c :: r => match check_case c with
